@@ -31,8 +31,9 @@ pub const R_DRAIN: u8 = 16;
 pub const R_TAKE: u8 = 17;
 pub const R_INTERLEAVED: u8 = 18;
 pub const R_LIFT: u8 = 19;
+pub const R_STATIC: u8 = 20;
 
-pub static OPS: [OpSpec; 20] = [
+pub static OPS: [OpSpec; 21] = [
     OpSpec { name: "b_leaf", shrink: 1 },
     OpSpec { name: "b_map", shrink: 0 },
     OpSpec { name: "b_zip_map", shrink: 0 },
@@ -53,6 +54,7 @@ pub static OPS: [OpSpec; 20] = [
     OpSpec { name: "take", shrink: 1 },
     OpSpec { name: "interleaved_drain", shrink: 1 },
     OpSpec { name: "lift", shrink: 7 },
+    OpSpec { name: "static_stack", shrink: 0 },
 ];
 
 // fault / probe indices shared by both scenarios
@@ -89,8 +91,10 @@ pub const P_TAKE: usize = 5;
 pub const P_INTERLEAVED: usize = 6;
 pub const P_LIFT: usize = 7;
 pub const P_WIDE_FRAME: usize = 8;
+pub const P_STATIC_STACK: usize = 9;
+pub const P_ITER_METHOD: usize = 10;
 
-pub static PROBES: [&str; 9] = [
+pub static PROBES: [&str; 11] = [
     "tree depth >= 5",
     "four primary leaves in one tree",
     "integer sample format",
@@ -100,6 +104,8 @@ pub static PROBES: [&str; 9] = [
     "interleaved drain checked",
     "lift checked",
     "frame with >= 8 channels",
+    "statically typed adaptor stack checked",
+    "provided Iterator method (nth / skip / count / last / step_by) checked",
 ];
 
 // ---------------------------------------------------------------------------------------------
@@ -276,7 +282,7 @@ fn eval<F: AdFrame>(n: &mut Node, lv: &mut Leaves<F>, mc: &mut ModelCalls<F>, ob
                 _ => F::sleaf(m.id, m.cur),
             };
             m.cur += 1;
-            x.add_amp(y)
+            x.add_ref(y)
         }
         Node::Mul(a, j) => {
             let x = eval(a, lv, mc, obs);
@@ -286,12 +292,12 @@ fn eval<F: AdFrame>(n: &mut Node, lv: &mut Leaves<F>, mc: &mut ModelCalls<F>, ob
                 _ => F::fleaf(m.id, m.cur),
             };
             m.cur += 1;
-            x.mul_amp(y)
+            x.mul_ref(y)
         }
-        Node::Scale(a, q) => eval(a, lv, mc, obs).scale_amp(F::fparam(*q)),
-        Node::Offset(a, q) => eval(a, lv, mc, obs).offset_amp(F::sparam(*q)),
-        Node::ScalePc(a, q) => eval(a, lv, mc, obs).mul_amp(F::fpc(*q)),
-        Node::OffsetPc(a, q) => eval(a, lv, mc, obs).add_amp(F::spc(*q)),
+        Node::Scale(a, q) => eval(a, lv, mc, obs).scale_ref(F::fparam(*q)),
+        Node::Offset(a, q) => eval(a, lv, mc, obs).offset_ref(F::sparam(*q)),
+        Node::ScalePc(a, q) => eval(a, lv, mc, obs).mul_ref(F::fpc(*q)),
+        Node::OffsetPc(a, q) => eval(a, lv, mc, obs).add_ref(F::spc(*q)),
         Node::Clip(a, q) => eval(a, lv, mc, obs).clip_ref(F::sparam(*q)),
         Node::Inspect(a, c) => {
             let f = eval(a, lv, mc, obs);
@@ -750,6 +756,9 @@ pub fn run_tree<F: AdFrame>(flavor: Flavor, src: &mut Source, obs: &mut Observer
                             let n = [g.nm, g.ns, g.nf][pool as usize] as i64;
                             return Some(Op::new(R_OWNER_PULL, pool, r.range(0, n - 1), r.range(1, 5)));
                         }
+                        if r.chance(1, 10) {
+                            return Some(Op::new(R_STATIC, r.range(0, 11), r.range(0, 5), r.range(0, 5)));
+                        }
                         if g.flavor == Flavor::Eof && r.chance(1, 12) {
                             return Some(Op::new(R_LIFT, r.range(0, 24), r.range(0, 3), r.range(0, 6)));
                         }
@@ -811,6 +820,11 @@ pub fn run_tree<F: AdFrame>(flavor: Flavor, src: &mut Source, obs: &mut Observer
                     g.done += 1;
                     obs.tick(op.k);
                     lift_op::<F>(op, obs)?;
+                }
+                R_STATIC => {
+                    g.done += 1;
+                    obs.tick(op.k);
+                    static_stack_op::<F>(op, obs)?;
                 }
                 _ => break Some(op),
             }
@@ -895,9 +909,9 @@ pub fn run_tree<F: AdFrame>(flavor: Flavor, src: &mut Source, obs: &mut Observer
                             ],
                         };
                         Some(match R_PULL + r.weighted(&w) as u8 {
-                            R_DRAIN => Op::ka(R_DRAIN, r.range(0, 16)),
-                            R_TAKE => Op::ka(R_TAKE, r.range(0, 12)),
-                            R_INTERLEAVED => Op::ka(R_INTERLEAVED, r.range(0, 16)),
+                            R_DRAIN => Op::new(R_DRAIN, r.range(0, 16), if r.chance(1, 3) { r.range(1, 5) } else { 0 }, r.range(0, 6)),
+                            R_TAKE => Op::new(R_TAKE, r.range(0, 12), if r.chance(1, 3) { r.range(1, 5) } else { 0 }, r.range(0, 6)),
+                            R_INTERLEAVED => Op::new(R_INTERLEAVED, r.range(0, 16), if r.chance(1, 3) { r.range(1, 5) } else { 0 }, r.range(0, 6)),
                             k => Op::k(k),
                         })
                     }),
@@ -936,13 +950,23 @@ pub fn run_tree<F: AdFrame>(flavor: Flavor, src: &mut Source, obs: &mut Observer
                         let n = op.a.clamp(0, 40) as usize;
                         let t = tree.as_mut().unwrap();
                         // `&mut Dyn` is a Signal through the `&mut S` forwarding impl
-                        let got: Vec<F> = Signal::take(&mut *t, n).collect();
-                        let mut want = Vec::new();
-                        for _ in 0..n {
-                            want.push(eval(&mut node, &mut mv, &mut mc, obs));
+                        let it = Signal::take(&mut *t, n);
+                        check_eq!(obs, (it.len(), it.size_hint()), (n, (n, Some(n))), "tree.take-len", "take({}).len() / size_hint()", n);
+                        let variant = op.b;
+                        let k = op.c.clamp(0, 64) as usize;
+                        if variant.rem_euclid(N_ITER_VARIANTS) != 0 {
+                            obs.probe(P_ITER_METHOD);
                         }
-                        check_eq!(obs, got.len(), n, "tree.take-count", "take({}) yields exactly n frames", n);
-                        check_eq!(obs, got, want, "tree.take", "take({}) contents", n);
+                        let got = apply_iter_variant(it, variant, k);
+                        let mut all = Vec::new();
+                        for _ in 0..n {
+                            all.push(eval(&mut node, &mut mv, &mut mc, obs));
+                        }
+                        let want = model_iter_variant(&all, variant, k);
+                        if variant.rem_euclid(N_ITER_VARIANTS) == 0 {
+                            check_eq!(obs, got.0.len(), n, "tree.take-count", "take({}) yields exactly n frames", n);
+                        }
+                        check_eq!(obs, got, want, "tree.take", "take({}) through Iterator method variant {} (k = {})", n, variant, k);
                         pull_accounting(&mv, &closures, &mc, obs)?;
                     }
                     R_DRAIN | R_INTERLEAVED => {
@@ -964,7 +988,23 @@ pub fn run_tree<F: AdFrame>(flavor: Flavor, src: &mut Source, obs: &mut Observer
                             obs.probe(P_DRAIN_ZERO);
                         }
                         let t = tree.take().unwrap();
-                        if op.k == R_DRAIN {
+                        let variant = op.b.rem_euclid(N_ITER_VARIANTS);
+                        let kk = op.c.clamp(0, 64) as usize;
+                        if variant != 0 {
+                            // same drain, but through a provided Iterator method (bounded by take)
+                            obs.probe(P_ITER_METHOD);
+                            let cap_n = want.len() + 8;
+                            if op.k == R_DRAIN {
+                                let got = apply_iter_variant(t.until_exhausted().take(cap_n), variant, kk);
+                                let want_v = model_iter_variant(&want, variant, kk);
+                                check_eq!(obs, got, want_v, "tree.drain", "until_exhausted() through Iterator method variant {} (k = {})", variant, kk);
+                            } else {
+                                let want_s: Vec<u64> = want.iter().flat_map(|f| f.channels()).map(F::sample_bits).collect();
+                                let got = apply_iter_variant(t.into_interleaved_samples().into_iter().map(F::sample_bits).take(want_s.len() + 8), variant, kk);
+                                let want_v = model_iter_variant(&want_s, variant, kk);
+                                check_eq!(obs, got, want_v, "tree.interleaved", "interleaved samples through Iterator method variant {} (k = {})", variant, kk);
+                            }
+                        } else if op.k == R_DRAIN {
                             let mut it = t.until_exhausted();
                             let mut got = Vec::new();
                             while got.len() <= want.len() + 4 {
@@ -1104,7 +1144,7 @@ fn lift_op<F: AdFrame>(op: Op, obs: &mut Observer) -> Result<(), Violation> {
         0 => (signal::lift(it, |s| s).collect(), src_frames),
         1 => (
             signal::lift(it, |s| s.offset_amp(F::sparam(64))).collect(),
-            src_frames.iter().map(|f| f.offset_amp(F::sparam(64))).collect(),
+            src_frames.iter().map(|f| f.offset_ref(F::sparam(64))).collect(),
         ),
         2 => {
             let mut w = vec![F::EQUILIBRIUM; k as usize];
@@ -1115,7 +1155,7 @@ fn lift_op<F: AdFrame>(op: Op, obs: &mut Observer) -> Result<(), Violation> {
             // joined with a shorter / longer second finite input
             let (s2, _) = ProbeSignal::with(9 + 16 * 4, Some(k * 3), F::sleaf as fn(u32, u64) -> F::SF);
             let n = len.min(k * 3);
-            let w = (0..n).map(|i| F::leaf(id, i).add_amp(F::sleaf(9 + 16 * 4, i))).collect();
+            let w = (0..n).map(|i| F::leaf(id, i).add_ref(F::sleaf(9 + 16 * 4, i))).collect();
             (signal::lift(it, |s| s.add_amp(s2)).collect(), w)
         }
     };
@@ -1125,6 +1165,110 @@ fn lift_op<F: AdFrame>(op: Op, obs: &mut Observer) -> Result<(), Violation> {
     obs.fault(F_EOF);
     check_eq!(obs, got.len(), want.len(), "lift.count", "frames yielded by lift (variant {}, len {}, k {})", variant, len, k);
     check_eq!(obs, got, want, "lift.frames", "lift contents (variant {})", variant);
+    Ok(())
+}
+
+
+// ---------------------------------------------------------------------------------------------
+// provided Iterator methods on the library's iterator types must behave as their default
+// definitions over next(): whatever they skip is consumed, nothing else
+// ---------------------------------------------------------------------------------------------
+
+pub const N_ITER_VARIANTS: i64 = 6;
+
+pub fn apply_iter_variant<T, I: Iterator<Item = T>>(mut it: I, variant: i64, k: usize) -> (Vec<T>, usize) {
+    match variant.rem_euclid(N_ITER_VARIANTS) {
+        0 => (it.collect(), 0),
+        1 => {
+            let x = it.nth(k);
+            let some = x.is_some() as usize;
+            let mut v: Vec<T> = x.into_iter().collect();
+            v.extend(it);
+            (v, some)
+        }
+        2 => (it.skip(k).collect(), 0),
+        3 => (Vec::new(), it.count()),
+        4 => (it.last().into_iter().collect(), 0),
+        _ => (it.step_by(k + 1).collect(), 0),
+    }
+}
+
+pub fn model_iter_variant<T: Clone>(items: &[T], variant: i64, k: usize) -> (Vec<T>, usize) {
+    match variant.rem_euclid(N_ITER_VARIANTS) {
+        0 => (items.to_vec(), 0),
+        1 => {
+            if k < items.len() {
+                (items[k..].to_vec(), 1)
+            } else {
+                (Vec::new(), 0)
+            }
+        }
+        2 => (items.iter().skip(k).cloned().collect(), 0),
+        3 => (Vec::new(), items.len()),
+        4 => (items.last().cloned().into_iter().collect(), 0),
+        _ => (items.iter().step_by(k + 1).cloned().collect(), 0),
+    }
+}
+
+/// Statically typed adaptor stacks (no boxing between the stages): the same adaptor applied
+/// twice in method-call syntax, and a few mixed chains, over a short finite leaf.
+fn static_stack_op<F: AdFrame>(op: Op, obs: &mut Observer) -> Result<(), Violation> {
+    let variant = op.a.rem_euclid(12);
+    let q1 = op.b.rem_euclid(6);
+    let q2 = op.c.rem_euclid(6);
+    let gains = [4i64, 16, -12, 2, 8, -4]; // /8
+    let (g1, g2) = (gains[q1 as usize], gains[q2 as usize]);
+    let offs = [0i64, 7, -9, 40, -33, 64]; // /1024
+    let (o1, o2) = (offs[q1 as usize], offs[q2 as usize]);
+    let id = 2 + 16 * 5; // leaf amplitude < 1/32
+    let len = 5u64;
+    let mk = || ProbeSignal::with(id, Some(len), F::leaf as fn(u32, u64) -> F).0;
+    let src_f = |i: u64| if i < len { F::leaf(id, i) } else { F::EQUILIBRIUM };
+    let n_pull = 8u64;
+    macro_rules! run {
+        ($sig:expr, $f:expr, $delay:expr) => {{
+            let mut s = $sig;
+            let delay: u64 = $delay;
+            for n in 0..n_pull {
+                let want: F = if n < delay { F::EQUILIBRIUM } else { ($f)(src_f(n - delay)) };
+                let exhausted = n >= delay + len;
+                check_eq!(obs, s.is_exhausted(), exhausted, "static.is_exhausted", "stack variant {} before frame {}", variant, n);
+                let got = s.next();
+                check_eq!(obs, got, want, "static.frame", "statically typed stack variant {} (params {}, {}), frame {}", variant, q1, q2, n);
+            }
+        }};
+    }
+    match variant {
+        0 => run!(mk().scale_amp(F::fparam(g1)).scale_amp(F::fparam(g2)), |f: F| f.scale_ref(F::fparam(g1)).scale_ref(F::fparam(g2)), 0),
+        1 => run!(mk().offset_amp(F::sparam(o1)).offset_amp(F::sparam(o2)), |f: F| f.offset_ref(F::sparam(o1)).offset_ref(F::sparam(o2)), 0),
+        2 => run!(mk().delay(q1 as usize).delay(q2 as usize), |f: F| f, (q1 + q2) as u64),
+        3 => run!(mk().clip_amp(F::sparam(o1.abs())).clip_amp(F::sparam(o2.abs())), |f: F| f.clip_ref(F::sparam(o1.abs())).clip_ref(F::sparam(o2.abs())), 0),
+        4 => run!(
+            mk().scale_amp(F::fparam(g1)).offset_amp(F::sparam(o2)).scale_amp(F::fparam(g2)),
+            |f: F| f.scale_ref(F::fparam(g1)).offset_ref(F::sparam(o2)).scale_ref(F::fparam(g2)),
+            0
+        ),
+        5 => run!(mk().map(|f: F| f.reverse()).map(|f: F| f.select(F::EQUILIBRIUM)), |f: F| f.reverse().select(F::EQUILIBRIUM), 0),
+        6 => run!(
+            mk().scale_amp_per_channel(F::fpc(q1)).scale_amp_per_channel(F::fpc(q2 + 9)),
+            |f: F| f.mul_ref(F::fpc(q1)).mul_ref(F::fpc(q2 + 9)),
+            0
+        ),
+        7 => run!(
+            mk().offset_amp_per_channel(F::spc(q1)).offset_amp_per_channel(F::spc(q2 + 100)),
+            |f: F| f.add_ref(F::spc(q1)).add_ref(F::spc(q2 + 100)),
+            0
+        ),
+        8 => run!(mk().delay(q1 as usize).scale_amp(F::fparam(g2)).delay(q2 as usize), |f: F| f.scale_ref(F::fparam(g2)), (q1 + q2) as u64),
+        9 => run!(mk().inspect(|_f: &F| ()).inspect(|_f: &F| ()).offset_amp(F::sparam(o1)), |f: F| f.offset_ref(F::sparam(o1)), 0),
+        10 => run!(
+            mk().scale_amp(F::fparam(g1)).scale_amp(F::fparam(g2)).scale_amp(F::fparam(4)),
+            |f: F| f.scale_ref(F::fparam(g1)).scale_ref(F::fparam(g2)).scale_ref(F::fparam(4)),
+            0
+        ),
+        _ => run!(mk().offset_amp(F::sparam(o1)).clip_amp(F::sparam(20)).offset_amp(F::sparam(o2)), |f: F| f.offset_ref(F::sparam(o1)).clip_ref(F::sparam(20)).offset_ref(F::sparam(o2)), 0),
+    }
+    obs.probe(P_STATIC_STACK);
     Ok(())
 }
 
